@@ -73,8 +73,10 @@ class SumKroneckerLinearOperator(SumLinearOperator):
         self: Float[LinearOperator, "... N N"]
     ) -> Union[Float[torch.Tensor, "... N N"], Float[LinearOperator, "... N N"]]:
         inner_mat = self._sum_formulation
+        # the inner matrix is built from the inverse roots W_i (W_i W_i^T = C_i^{-1}) of the factors of the second
+        # summand; the matching square roots are W_i^{-T} = C_i W_i (an unrelated root of C_i does not fit)
         lt2_root = KroneckerProductLinearOperator(
-            *[lt.root_decomposition().root for lt in self.linear_ops[1].linear_ops]
+            *[lt.matmul(lt.root_inv_decomposition().root) for lt in self.linear_ops[1].linear_ops]
         )
         inner_mat_root = inner_mat.root_decomposition().root
         root = lt2_root.matmul(inner_mat_root)
